@@ -170,3 +170,75 @@ Proof.
               0%nat 1%nat nvp_prog1 nvp_prog2 nvp_pd P1 P2 P12 Hok) as [E _].
   exact E.
 Qed.
+
+(* ---- the same with operators applied through Operator.__call__ between the differentiated ones:
+   mixing, operator, RESET, PD(2, reset=True), mixing, operator, shift, SPOILER, PD(1/2, reset=False), Wait,
+   mixing, operator -- SPOILER / RESET / PD act on the first- and second-order partials too ---- *)
+Definition nvq_pdT : D2p := ((qr 2 1, qi0), (qi0, qi0)).
+Definition nvq_pdF : D2p := ((qr 1 2, qi0), (qi0, qi0)).
+Definition nvq_prog1 : list (op D2p) :=
+  let o := lin_op D2p (nvp_lin1 QIops nvp_a nvp_ax nvp_ay nvp_axy nvp_b nvp_bx nvp_by nvp_bxy) in
+  let m := lin_op D2p (nvp_mat1 QIops nvp_m) in
+  [m; o; OReset; OPD nvq_pdT true; m; o; OShift 1 None; OSpoil; OPD nvq_pdF false; OWait; m; o].
+Definition nvq_prog2 : list (dinstr QIops) :=
+  let o := DOp (nvp_dop QIops nvp_a nvp_ax nvp_ay nvp_axy nvp_b nvp_bx nvp_by nvp_bxy) in
+  let m := DOp (dop0 QIops (LMatrix nvp_m None)) in
+  [m; o; DPlain (@OReset QIops); DPlain (@OPD QIops (qr 2 1) true); m; o; DOp (dop0 QIops (LShift 1 None));
+   DPlain (@OSpoil QIops); DPlain (@OPD QIops (qr 1 2) false); DPlain (@OWait QIops); m; o].
+
+Lemma nvq_pd_ok (p1 : D2p) (r : bool) bb :
+  q10 QIops p1 = @k0 QIops -> q01 QIops p1 = @k0 QIops -> q11 QIops p1 = @k0 QIops ->
+  pair_ok12 D2p QIops (q00 QIops) (q10 QIops) (q01 QIops) (q11 QIops) 0 1 bb (@OPD D2p p1 r)
+            (DPlain (@OPD QIops (q00 QIops p1) r)).
+Proof.
+  exact (plain_pd_ok D2p QIops (q00 QIops) (q10 QIops) (q01 QIops) (q11 QIops) 0 1 bb p1 r).
+Qed.
+
+Lemma nvq_prog_ok :
+  Forall2 (pair_ok12 D2p QIops (q00 QIops) (q10 QIops) (q01 QIops) (q11 QIops) 0 1 false) nvq_prog1 nvq_prog2.
+Proof.
+  unfold nvq_prog1, nvq_prog2. cbv zeta.
+  repeat (apply Forall2_cons;
+    [first [apply (nvp_const_ok QIops QIlaws)|apply (nvp_op_ok QIops QIlaws)
+           |apply (dop0_shift_ok D2p QIops (q00 QIops) (q10 QIops) (q01 QIops) (q11 QIops))
+           |exact (nvq_pd_ok nvq_pdT true false eq_refl eq_refl eq_refl)
+           |exact (nvq_pd_ok nvq_pdF false false eq_refl eq_refl eq_refl)
+           |reflexivity]|]).
+  apply Forall2_nil.
+Qed.
+
+Lemma nvq_hessian_nonzero :
+  nth 1 (nth 0 (hessian (drun nvq_prog2 (dinit (@init QIops (q00 QIops nvp_pd)))) [0%nat; 1%nat]) []) (@k0 QIops)
+    <> @k0 QIops.
+Proof. vm_compute. intros H. discriminate H. Qed.
+
+(* every plain operator of the program changes the result: the Hessian entry differs from the one of the
+   program without the plain operators *)
+Lemma nvq_hessian_differs :
+  keqb (nth 1 (nth 0 (hessian (drun nvq_prog2 (dinit (@init QIops (q00 QIops nvp_pd)))) [0%nat; 1%nat]) []) (@k0 QIops))
+       (nth 1 (nth 0 (hessian (drun (filter (fun i => match i with DOp _ => true | DPlain _ => false end) nvq_prog2)
+                                    (dinit (@init QIops (q00 QIops nvp_pd)))) [0%nat; 1%nat]) []) (@k0 QIops)) = false.
+Proof. vm_compute. reflexivity. Qed.
+
+Theorem nvq_witness :
+  Forall2 (pair_ok12 D2p QIops (q00 QIops) (q10 QIops) (q01 QIops) (q11 QIops) 0 1 false) nvq_prog1 nvq_prog2 /\
+  In (DPlain (@OSpoil QIops)) nvq_prog2 /\ In (DPlain (@OReset QIops)) nvq_prog2 /\ In (DPlain (@OWait QIops)) nvq_prog2 /\
+  In (DPlain (@OPD QIops (qr 2 1) true)) nvq_prog2 /\ In (DPlain (@OPD QIops (qr 1 2) false)) nvq_prog2 /\
+  nth 1 (nth 0 (hessian (drun nvq_prog2 (dinit (@init QIops (q00 QIops nvp_pd)))) [0%nat; 1%nat]) []) (@k0 QIops)
+    <> @k0 QIops /\
+  nth 1 (nth 0 (hessian (drun nvq_prog2 (dinit (@init QIops (q00 QIops nvp_pd)))) [0%nat; 1%nat]) []) (@k0 QIops)
+    = q11 QIops (f0 D2p (run nvq_prog1 (@init D2p nvp_pd))).
+Proof.
+  split; [exact nvq_prog_ok|].
+  split; [unfold nvq_prog2; cbn [In]; tauto|]. split; [unfold nvq_prog2; cbn [In]; tauto|].
+  split; [unfold nvq_prog2; cbn [In]; tauto|]. split; [unfold nvq_prog2; cbn [In]; tauto|].
+  split; [unfold nvq_prog2; cbn [In]; tauto|]. split; [exact nvq_hessian_nonzero|].
+  pose proof (LD2 QIops QIlaws) as LL.
+  pose proof (prog_ok12_static D2p QIops (q00 QIops) (q10 QIops) (q01 QIops) (q11 QIops) 0%nat 1%nat
+                nvq_prog1 nvq_prog2 nvq_prog_ok (dinit (@init QIops (q00 QIops nvp_pd)))) as Hok.
+  destruct (hessian_point D2p QIops LL QIlaws (q00 QIops) (q10 QIops) (q01 QIops) (q11 QIops) eq_refl
+              (q00_add QIops) (q00_mul QIops) (q10_add QIops) (q10_mul QIops QIlaws) (q01_add QIops) (q01_mul QIops QIlaws)
+              (q11_add QIops) (q11_mul QIops QIlaws)
+              0%nat 1%nat nvq_prog1 nvq_prog2 nvp_pd eq_refl eq_refl eq_refl Hok) as [E _].
+  exact E.
+Qed.
